@@ -201,6 +201,68 @@ def encode_case(ctx, case):
         ctx.fail('encode', 'S1-size', case, sz, len(want))
 
 
+_CHILD = r"""
+import json, sys
+sys.dont_write_bytecode = True
+sys.path.insert(0, sys.argv[1]); sys.path.insert(0, sys.argv[2])
+from vlib.budget import run_with_line_budget, BudgetExceeded, Sink
+from minecraft.networking.types import VarInt, VarLong
+T = {'VarInt': VarInt, 'VarLong': VarLong}
+out = []
+for tname, n in json.loads(sys.argv[3]):
+    sink = Sink()
+    try:
+        run_with_line_budget(lambda: T[tname].send(n, sink), int(sys.argv[4]))
+        out.append(['ok', sink.value.hex()])
+    except BudgetExceeded:
+        out.append(['budget', None])
+    except Exception as e:
+        out.append(['raise', type(e).__name__])
+print(json.dumps({'debug': __debug__, 'out': out}))
+"""
+
+
+def interpreter_mode_case(ctx, case):
+    """The encoder's guarantees do not depend on how the interpreter was
+    started: the same calls in a child interpreter run with `flags` (-O drops
+    assert statements and sets __debug__ False).  case {flags [..],
+    values [[type, n]]}"""
+    import json
+    import os
+    import subprocess
+    import sys
+    from vlib import core
+    here = os.path.dirname(os.path.dirname(os.path.abspath(__file__)))
+    cmd = [sys.executable] + list(case['flags']) + [
+        '-c', _CHILD, here, core.REPO, json.dumps(case['values']),
+        str(LINE_BUDGET)]
+    try:
+        r = subprocess.run(cmd, stdout=subprocess.PIPE,
+                           stderr=subprocess.PIPE, timeout=120)
+        res = json.loads(r.stdout.decode())
+    except Exception as e:
+        raise core.HarnessError('C03 child interpreter failed: %r' % (e,))
+    if ('-O' in case['flags'] or '-OO' in case['flags']) and res['debug']:
+        raise core.HarnessError('child interpreter not optimised')
+    ctx.label('interpreter_mode_%s' % ''.join(case['flags']).strip('-'))
+    for (tname, n), (kind, val) in zip(case['values'], res['out']):
+        ctx.ev()
+        sub = {'flags': case['flags'], 'values': [[tname, n]]}
+        if kind == 'budget':
+            ctx.fail('interpreter_mode', 'S2-terminates', sub,
+                     'no return within %d line events' % LINE_BUDGET,
+                     'returns or raises')
+            continue
+        if n < 0:
+            ctx.nt(tname, n, tuple(case['flags']))
+            continue
+        if 0 <= n < _types()[tname][2]:
+            want = wire.varint(n).hex()
+            if kind != 'ok' or val != want:
+                ctx.fail('interpreter_mode', 'S1-canonical', sub,
+                         [kind, val], want)
+
+
 def fuzz_decode_case(ctx, case):
     """raw fuzzer input: first byte selects the type, rest is the stream"""
     b = case['input']
@@ -307,7 +369,8 @@ def stalled_peer_case(ctx, case):
 COMPONENTS = {'decode': decode_case, 'encode': encode_case,
               'fuzz_decode': fuzz_decode_case,
               'interleaved': interleaved_case,
-              'stalled_peer': stalled_peer_case}
+              'stalled_peer': stalled_peer_case,
+              'interpreter_mode': interpreter_mode_case}
 
 
 # ------------------------------------------------------------------- tasks
@@ -450,10 +513,20 @@ def t_interleaved(ctx):
                         'against a rotating fifth of the same calls')
 
 
+def t_interpreter_modes(ctx):
+    vals = [[t, n] for t in ('VarInt', 'VarLong')
+            for n in (-1, -2, -128, -2 ** 31, -2 ** 63, -2 ** 70, 0, 1, 127,
+                      128, 300, 2 ** 31 - 1, 2 ** 32 - 1)]
+    for flags in ([], ['-O'], ['-OO']):
+        interpreter_mode_case(ctx, {'flags': flags, 'values': vals})
+    ctx.sample({'flags': ['-O'], 'values': vals[:4]}, 'interpreter_mode')
+
+
 def tasks(tier):
     q = tier == 'quick'
     tl = [('interleaved', t_interleaved, {}),
-          ('stalled_peer', t_stalled_peer, {})]
+          ('stalled_peer', t_stalled_peer, {}),
+          ('interpreter_modes', t_interpreter_modes, {})]
     if not q:
         tl.append(('fuzz_empty_corpus', t_fuzz, dict(runs=1500000)))
     maxlen = 2 if q else 3
